@@ -1,4 +1,187 @@
-(* placeholder until C19/Proofs*.v land: nothing is claimed proved yet *)
-From V Require Import C19.Glue.
-Theorem c19_placeholder : True. Proof. exact I. Qed.
-Print Assumptions c19_placeholder.
+(* C19 - Instrument names, views and scope rules select exactly what they describe.
+   Every theorem is about the executable model coq/C19/Model.v (tied to the C++ by the differential run of ./check C19);
+   constants (regex literals, the no-op logger's name) come from Gen/Consts.v, regenerated from /repo on every run. *)
+From V Require Import C19.Glue C19.ProofsBase C19.ProofsNames C19.ProofsViews C19.ProofsScopes C19.ProofsLoggers C19.ProofsMeters C19.ProofsMeets.
+Local Open Scope N_scope.
+
+(* ---- "an instrument is created for exactly the names of the form letter followed by up to 254 letters, digits, _ . - /" -
+   for every byte string, embedded NULs and non-terminated views included (the model matches the whole view) *)
+Theorem name_valid_iff : forall s,
+  validate_name s = true <->
+  exists c t, s = c :: t /\ is_letter c = true /\ (length t <= 254)%nat /\ Forall (fun b => is_name_char b = true) t.
+Proof. exact name_valid_iff_lemma. Qed.
+Print Assumptions name_valid_iff.
+
+Theorem name_classes : forall b,
+  (is_letter b = true <-> (65 <= b2n b <= 90 \/ 97 <= b2n b <= 122)) /\
+  (is_name_char b = true <->
+   (65 <= b2n b <= 90 \/ 97 <= b2n b <= 122 \/ 48 <= b2n b <= 57 \/ b2n b = 95 \/ b2n b = 46 \/ b2n b = 45 \/ b2n b = 47)).
+Proof. exact (fun b => conj (is_letter_iff b) (is_name_char_iff b)). Qed.
+Print Assumptions name_classes.
+
+(* ---- "and units of at most 63 ASCII characters" (bytes 0x01..0x7f) *)
+Theorem unit_valid_iff : forall s,
+  validate_unit s = true <-> (length s <= 63)%nat /\ Forall (fun b => 1 <= b2n b <= 127) s.
+Proof. exact unit_valid_iff_lemma. Qed.
+Print Assumptions unit_valid_iff.
+
+(* ---- "for any other name or unit the meter returns an inert instrument and no metric stream ever appears for it":
+   in every provider configuration and every history, creating it is indistinguishable from not creating it *)
+Theorem invalid_is_inert : forall r d vs keys ops1 ops2 i,
+  validate_instrument (i_name i) (i_unit i) = false ->
+  run_met r d vs keys (ops1 ++ MInst i :: ops2) = run_met r d vs keys (ops1 ++ ops2).
+Proof. exact invalid_is_inert_lemma. Qed.
+Print Assumptions invalid_is_inert.
+
+(* ---- name patterns: the matcher decides the declarative meaning of the pattern *)
+Theorem pattern_matcher_decides_meaning : forall p s, pmatch p s = true <-> PM p s.
+Proof. exact pmatch_iff. Qed.
+Print Assumptions pattern_matcher_decides_meaning.
+
+(* ---- "a registered view applies to exactly the instruments whose type, name, unit and meter identity match its selectors".
+   Full statement: forall v s i, view_applies v s i = spec_view_applies v s i.
+   REFUTED by the faithful model (open finding F23: a meter without version / schema URL passes any version / schema selector);
+   it holds whenever the meter declares what the selector asks for. *)
+Theorem view_applies_iff_selectors_match_refuted : exists v s i, view_applies v s i = true /\ spec_view_applies v s i = false.
+Proof. exact view_applies_refuted. Qed.
+Print Assumptions view_applies_iff_selectors_match_refuted.
+
+Theorem view_applies_iff_selectors_match_partial : forall v s i,
+  (sc_ver s <> [] \/ v_mver v = []) -> (sc_schema s <> [] \/ v_mschema v = []) ->
+  view_applies v s i = spec_view_applies v s i.
+Proof. exact view_applies_partial. Qed.
+Print Assumptions view_applies_iff_selectors_match_partial.
+
+(* what the code decides, for all inputs (the second and third line from the end are the deviation) *)
+Theorem view_applies_exactly : forall v s i, view_applies v s i = lenient_view_applies v s i.
+Proof. exact view_applies_lenient. Qed.
+Print Assumptions view_applies_exactly.
+
+Theorem selectors_match_meaning : forall v s i,
+  spec_view_applies v s i = true <->
+  v_itype v = i_type i /\
+  match v_sel v with NAll => True | NPat p => PM p (i_name i) end /\
+  (v_unit v = [] \/ v_unit v = i_unit i) /\
+  (v_mname v = [] \/ v_mname v = sc_name s) /\ (v_mver v = [] \/ v_mver v = sc_ver s) /\
+  (v_mschema v = [] \/ v_mschema v = sc_schema s).
+Proof. exact spec_view_applies_iff. Qed.
+Print Assumptions selectors_match_meaning.
+
+(* ---- "instruments matched by no view get the default aggregation for their type" *)
+Theorem unmatched_gets_default_aggregation : forall vs s i keys,
+  (forall v, In v vs -> view_applies v s i = false) ->
+  map (fun v => stream_of v i s keys) (find_views vs s i) =
+    [mk_stream s (i_name i) (i_desc i) (i_unit i) (i_type i) (i_vtype i) (default_agg (i_type i)) 1 (norm_keys keys)].
+Proof. exact unmatched_default_lemma. Qed.
+Print Assumptions unmatched_gets_default_aggregation.
+
+Theorem default_aggregation_per_type : forall ity, ity <= 6 -> default_agg_ok ity (default_agg ity) = true.
+Proof. exact default_agg_is_default. Qed.
+Print Assumptions default_aggregation_per_type.
+
+(* ---- "its name, description, aggregation and attribute filter - and nothing else - shape the exported stream" *)
+Theorem view_shapes_nothing_else : forall v v' i s keys,
+  v_name v = v_name v' -> v_desc v = v_desc v' -> v_agg v = v_agg v' -> v_filter v = v_filter v' ->
+  stream_of v i s keys = stream_of v' i s keys.
+Proof. exact stream_depends_only_on. Qed.
+Print Assumptions view_shapes_nothing_else.
+
+(* Full statement: forall v i s keys, v_agg v <= 4 -> i_type i <= 6 -> shaped v i s keys (stream_of v i s keys) = true.
+   REFUTED by the faithful model (new open finding F22: the attribute filter is not applied to observable instruments). *)
+Theorem view_shapes_exactly_name_desc_agg_filter_refuted : exists v i s keys,
+  v_agg v <= 4 /\ i_type i <= 6 /\ shaped v i s keys (stream_of v i s keys) = false.
+Proof. exact stream_shaped_refuted. Qed.
+Print Assumptions view_shapes_exactly_name_desc_agg_filter_refuted.
+
+Theorem view_shapes_exactly_name_desc_agg_filter_partial : forall v i s keys,
+  v_agg v <= 4 -> i_type i <= 6 -> (is_async (i_type i) = false \/ v_filter v = None) ->
+  shaped v i s keys (stream_of v i s keys) = true.
+Proof. exact stream_shaped. Qed.
+Print Assumptions view_shapes_exactly_name_desc_agg_filter_partial.
+
+(* ---- every stream a view asks for is collected.  REFUTED (open finding F14): with two views on one instrument only the
+   last view's stream is collected; the partial statement is [model_meets_spec] for metrics cases (at most one view applies) *)
+Theorem every_view_stream_collected_refuted :
+  map st_name (snd (run_met [] true f14_views [] f14_ops)) = [bs "v2"] /\
+  complete_ok [] true f14_views [] f14_ops (snd (run_met [] true f14_views [] f14_ops)) = false /\
+  spec_met [] true f14_views [] f14_ops (fst (run_met [] true f14_views [] f14_ops)) (snd (run_met [] true f14_views [] f14_ops))
+    = fail "every_view_stream_collected:two_views".
+Proof. exact ProofsMeets.every_view_stream_collected_refuted. Qed.
+Print Assumptions every_view_stream_collected_refuted.
+
+(* what is collected, for every well-formed operation sequence: one stream per instrument created with a valid name and unit on
+   a meter whose scope the configurator enables - shaped by the LAST view FindViews hands out (the default view if none applies) *)
+Theorem collected_streams_exactly : forall r d vs keys ops o, wf_met ops = true ->
+  (In o (snd (run_met r d vs keys ops)) <->
+   exists s i, In (s, i) (instrs_of None ops) /\ compute_config r d s = true /\
+               validate_instrument (i_name i) (i_unit i) = true /\ o = final_stream vs keys s i).
+Proof. exact collected_iff. Qed.
+Print Assumptions collected_streams_exactly.
+
+(* ---- ScopeConfigurator: conditions in order, first match wins, default otherwise *)
+Theorem configurator_first_match : forall r d s,
+  (exists pre c e post, r = pre ++ (c, e) :: post /\ (forall x, In x pre -> cond_match (fst x) s = false) /\
+                        cond_match c s = true /\ compute_config r d s = e) \/
+  ((forall x, In x r -> cond_match (fst x) s = false) /\ compute_config r d s = d).
+Proof. exact configurator_first_match_lemma. Qed.
+Print Assumptions configurator_first_match.
+
+(* ---- "a tracer, meter or logger whose scope the configurator disables produces no telemetry while differently named scopes
+   are unaffected": for every rule list and every request sequence, the exported spans / records are exactly those of the
+   requests whose scope is enabled, in order, each under the scope it was requested with *)
+Theorem disabled_scope_silent_others_unaffected : forall r d,
+  (forall ops, ts_spans (run_tr r d ops) = filter (fun ns => compute_config r d (snd ns)) (number_from 0 ops)) /\
+  (forall ops s, filter (fun ns => scope_eqb (snd ns) s) (ts_spans (run_tr r d ops)) =
+                 if compute_config r d s then filter (fun ns => scope_eqb (snd ns) s) (number_from 0 ops) else []) /\
+  (forall ops, map (fun rc => (r_call rc, r_scope rc)) (ls_recs (run_lg r d ops)) =
+               map (fun nq => (fst nq, q_scope (snd nq)))
+                   (filter (fun nq => compute_config r d (q_scope (snd nq))) (number_from 0 ops))).
+Proof. exact (fun r d => conj (spans_exact r d) (conj (disabled_silent_others_unaffected_tr r d) (recs_scope_exact r d))). Qed.
+Print Assumptions disabled_scope_silent_others_unaffected.
+
+(* ---- "requesting the same name/version/schema/attributes returns the same tracer, meter or logger" (and a different one
+   for a different identity): the index printed for a request is the position of the first equal request *)
+Theorem same_identity_same_instance_tracer_meter : forall r d,
+  (forall ops, ts_out (run_tr r d ops) = expected_indices scope_eqb ops) /\
+  (forall vs keys ops, fst (run_met r d vs keys ops) = expected_indices scope_eqb (gets_of ops)).
+Proof.
+  exact (fun r d => conj (fun ops => proj1 (nats_eqb_eq _ _) (tracers_ok_lemma r d ops))
+                         (fun vs keys ops => proj1 (nats_eqb_eq _ _) (meters_ok_lemma r d vs keys ops))).
+Qed.
+Print Assumptions same_identity_same_instance_tracer_meter.
+
+(* loggers (the only ABI-v1 entry point with scope attributes).  Full statement:
+     forall r d ops, ls_out (run_lg r d ops) = expected_indices lreq_eqb ops.
+   REFUTED twice by the faithful model: F19 (a repeated attribute key) and F21 (a scope the configurator disables). *)
+Theorem same_identity_same_instance_refuted :
+  (lreq_eqb f19_req f19_req = true /\ ls_out (run_lg [] true [f19_req; f19_req]) = [0; 1]%nat /\
+   same_ok [f19_req; f19_req] (ls_out (run_lg [] true [f19_req; f19_req])) = false) /\
+  (ls_out (run_lg [(CName (bs "a"), false)] true [f21_req; f21_req]) = [0; 1]%nat /\
+   same_ok [f21_req; f21_req] (ls_out (run_lg [(CName (bs "a"), false)] true [f21_req; f21_req])) = false).
+Proof. exact (conj same_identity_refuted_dup_key same_identity_refuted_disabled). Qed.
+Print Assumptions same_identity_same_instance_refuted.
+
+Theorem same_identity_same_instance_partial : forall r d ops,
+  Forall (good_req r d) ops -> ls_out (run_lg r d ops) = expected_indices lreq_eqb ops.
+Proof. exact lg_indices. Qed.
+Print Assumptions same_identity_same_instance_partial.
+
+(* F19b: a request with a repeated key is answered with another identity's logger *)
+Theorem requested_scope_exact_refuted :
+  lreq_eqb f19b_a f19b_b = false /\ ls_out (run_lg [] true [f19b_a; f19b_b]) = [0; 0]%nat /\
+  recs_ok [] true [f19b_a; f19b_b] (ls_recs (run_lg [] true [f19b_a; f19b_b])) = false.
+Proof. exact distinct_identity_refuted_dup_key. Qed.
+Print Assumptions requested_scope_exact_refuted.
+
+(* AttributeMap::EqualTo decides "the same attributes" exactly when neither side repeats a key *)
+Theorem equal_to_decides_same_attributes : forall a b,
+  nodup_keys a -> nodup_keys b -> equal_to (amap_of a) b = attrs_equiv a b.
+Proof. exact equal_to_equiv. Qed.
+Print Assumptions equal_to_decides_same_attributes.
+
+(* ---- the SPEC checker that ./check runs on the implementation's observations accepts the model's output:
+   for every name, unit, predicate, tracer case; for metrics cases under [met_good] (the excluded regions are exactly the
+   open findings F14, F22, F23 and re-created instruments, C06); for logger cases under [good_req] (F19, F21) *)
+Theorem model_meets_spec : forall c, case_good c -> spec_on c = [].
+Proof. exact model_meets_spec_lemma. Qed.
+Print Assumptions model_meets_spec.
